@@ -13,6 +13,7 @@
 (*   C08  the document written against a rotated / translated frame (or    *)
 (*        shifted in longitude) answers the same at the moved points       *)
 (*   C13  every answer is finite (or a refusal), no undefined behaviour    *)
+(*   C14  real threads asking one world get the single-thread answers      *)
 (*   C16  the same file built through the C interface answers the same     *)
 (* For those the specification should range over "all valid world files".  *)
 (* This module describes that set constructively: a document is built one  *)
@@ -246,7 +247,14 @@ MotionB == LET f == Frames(sph)[frame] IN
                          [op |-> "qtable", h |-> 1, h2 |-> 2, dim |-> 3, sph |-> sph, props |-> MotionProps, pos2 |-> <<4, 5, 6>>,
                           twinrel |-> Dec(1, -6), twinabs |-> Dec(1, -3), jitter |-> Dec(1, -7), rows |-> MRows(f)] >>]
 
-Emit == ~done \/ (PrintT(<<"B", ToJson(FiniteB)>>) /\ PrintT(<<"B", ToJson(PurityB)>>) /\ PrintT(<<"B", ToJson(CullB)>>)
+(* C14: the document as a job for real threads (harness/threads.cc): one probe per lattice position, the depth cycling *)
+ThreadJob == LET n == Len(Rows) \div Len(DepthsM) IN
+             [wb |-> Doc, gen |-> Id("threads"),
+              points |-> [k \in 1..n |-> LET r == Rows[Len(DepthsM) * (k - 1) + ((k - 1) % Len(DepthsM)) + 1] IN
+                                          IF sph THEN [sph |-> <<r[1], r[2], r[3]>>, depth |-> r[4]] ELSE [p |-> <<r[1], r[2], r[3]>>, depth |-> r[4]]],
+              lists |-> <<AllProps, <<PT>>, <<PTag, PV, PC(1), PG(0, 2)>>>>]
+
+Emit == ~done \/ (PrintT(<<"J", ToJson(ThreadJob)>>) /\ PrintT(<<"B", ToJson(FiniteB)>>) /\ PrintT(<<"B", ToJson(PurityB)>>) /\ PrintT(<<"B", ToJson(CullB)>>)
                   /\ PrintT(<<"B", ToJson(WrapperB)>>) /\ PrintT(<<"B", ToJson(MotionB)>>))
 
 (* the machine only ever appends well-formed features; the frames are rigid *)
